@@ -180,7 +180,15 @@ func (dw *DiskWriter) HandleChange(kind ChangeKind, p string, fi os.FileInfo, er
 			return errors.Wrapf(err, "failed to symlink %s", newPath)
 		}
 	case statCopy.Linkname != "":
-		if err := os.Link(filepath.Join(dw.dest, statCopy.Linkname), newPath); err != nil {
+		linkSrc := filepath.Join(dw.dest, statCopy.Linkname)
+		// a hard link is announced for regular files only. If the path it names
+		// holds a symlink (left in place by a merge, a filter or a metadata-only
+		// selector), linking would give the symlink a second name and the
+		// metadata below would be applied through it to whatever it points to.
+		if lfi, err := os.Lstat(linkSrc); err == nil && lfi.Mode()&os.ModeSymlink != 0 {
+			return errors.WithStack(&os.PathError{Path: p, Err: syscall.EINVAL, Op: "hard link to symlink " + statCopy.Linkname})
+		}
+		if err := os.Link(linkSrc, newPath); err != nil {
 			return errors.Wrapf(err, "failed to link %s to %s", newPath, statCopy.Linkname)
 		}
 	default:
